@@ -1,3 +1,4 @@
+import Proofs.C06Pins
 import Proofs.C06Refine
 import Proofs.C06Conseq
 import Proofs.C06Split
@@ -243,3 +244,17 @@ example : floatToInt (.rat 1000001 1) > maxFieldIndex := by decide
 example : floatToInt (.inf false) > maxFieldIndex ∧ floatToInt .nan < 0 := by decide
 
 end GoawkModel.C06.Props
+
+/-! ## Pinned source text (regenerated tie; extract/pins.go, tools/repin.py)
+An edit of one of these functions in /repo breaks the matching obligation: the model below was written from the text
+in `Proofs.C06Pins` and has to be compared with the new text before it is re-pinned. -/
+namespace GoawkModel.Pins.C06
+theorem pin_setLine : Generated.C06Pins.setLine = Expected.setLine := rfl
+theorem pin_ensureFields : Generated.C06Pins.ensureFields = Expected.ensureFields := rfl
+theorem pin_splitOnFieldSepRegex : Generated.C06Pins.splitOnFieldSepRegex = Expected.splitOnFieldSepRegex := rfl
+theorem pin_getField : Generated.C06Pins.getField = Expected.getField := rfl
+theorem pin_setField : Generated.C06Pins.setField = Expected.setField := rfl
+theorem pin_joinFields : Generated.C06Pins.joinFields = Expected.joinFields := rfl
+theorem pin_list : Generated.C06Pins.pinned = Expected.pinned := rfl
+end GoawkModel.Pins.C06
+-- end of pinned source text
